@@ -326,6 +326,15 @@ func mutatorsFor(typ, chain string, fx *fixture) []mutator {
 			{"TxHash", func(e mtypes.ExternalEvent, s int) {
 				e.(*mtypes.SignerSetTxExecutedEvent).TxHash = fmt.Sprintf("0x%064x", 777+s)
 			}},
+			{"Members.repeated", func(e mtypes.ExternalEvent, s int) {
+				// another member, listed twice (a combination rule in which equal entries cancel would not see it)
+				x := e.(*mtypes.SignerSetTxExecutedEvent)
+				m := &mtypes.ExternalSigner{Power: uint64(1000 + s), ExternalAddress: sim.ExtUser(7).Hex()}
+				if s%2 == 1 {
+					m = &mtypes.ExternalSigner{Power: x.Members[0].Power, ExternalAddress: x.Members[0].ExternalAddress}
+				}
+				x.Members = append(x.Members, m, &mtypes.ExternalSigner{Power: m.Power, ExternalAddress: m.ExternalAddress})
+			}},
 		}
 	}
 	return nil
